@@ -152,5 +152,11 @@ pub(crate) trait CMsgHdr {
     fn len(&self) -> usize;
 }
 
+/// Size of the control message buffers used by `send` and `recv`
+///
+/// Must hold everything the kernel attaches to one received message. On Linux a GRO-coalesced
+/// message carries `SCM_TIMESTAMPNS` (32 bytes of `CMSG_SPACE`), `UDP_GRO` (24), `IP_PKTINFO` (32)
+/// or `IPV6_PKTINFO` (40) and `IP_TOS`/`IPV6_TCLASS` (24): 112 or 120 bytes. With a smaller buffer
+/// the kernel silently drops the trailing TOS/TCLASS message and the ECN codepoint is lost.
 #[cfg(unix)]
-pub(crate) const LEN: usize = 96;
+pub(crate) const LEN: usize = 128;
